@@ -612,12 +612,14 @@ Section WithOracles.
     forall x, In x (non_ancestral (sk (b :: rest)) (b :: rest)) ->
     In b (non_ancestral (sk (b :: rest)) (b :: rest)) \/ anc g b x.
   Proof.
-    intros _ x Hx. destruct (sk (b :: rest)) as [c| |] eqn:E; simpl in *; auto.
+    intros _ x Hx. destruct (sk (b :: rest)) as [c| |] eqn:E;
+      [|left; simpl; left; reflexivity|left; simpl; left; reflexivity].
     destruct (sk_sound _ _ E) as [Hin Hall].
-    destruct (negb (b =? c)) eqn:Eb; [left; left; reflexivity|].
-    apply negb_false_iff in Eb. apply N.eqb_eq in Eb. subst c.
-    right. apply Hall.
-    rewrite N.eqb_refl in Hx. simpl in Hx. apply filter_In in Hx. right. tauto.
+    unfold non_ancestral in *.
+    destruct (negb (b =? c)) eqn:Eb.
+    - left. apply filter_In. split; [left; reflexivity|exact Eb].
+    - apply negb_false_iff in Eb. apply N.eqb_eq in Eb. subst c.
+      right. apply Hall. apply filter_In in Hx. tauto.
   Qed.
 
   Definition core_ok (s : rstore) (r : rstore * list trans * N * nat) : Prop :=
@@ -729,34 +731,224 @@ Section WithOracles.
     destruct Ht as [a Ha]. exists a. apply Hm. exact Ha.
   Qed.
 
-  Lemma pull_step_ok st branch specs gf mode m : res_ok st (pull_step g ia sk st branch specs gf mode m).
+  (** guard of the pull theorem: when the pulled branch does not exist yet, the fetch half does not
+      create it (i.e. no refspec of this pull writes into refs/heads/BRANCH itself).  Without it the
+      faithful model - and the code - overwrite the just-fetched branch: see pull_new_branch_refuted. *)
+  Definition pull_guard (st : state) (branch : name) (specs : list refspec) (gf : bool) : Prop :=
+    rget (lrefs st) (s_heads ++ branch) = None ->
+    rget (lrefs (r_state (fetch_step g ia st specs gf))) (s_heads ++ branch) = None.
+
+  Lemma pull_step_ok st branch specs gf mode m :
+    pull_guard st branch specs gf ->
+    res_ok st (pull_step g ia sk st branch specs gf mode m).
   Proof.
-    unfold pull_step.
-    pose proof (fetch_step_ok st specs gf) as F.
+    intros G. unfold pull_step.
+    pose proof (fetch_step_ok st specs gf) as F. unfold pull_guard in G.
     set (rf := fetch_step g ia st specs gf) in *.
     destruct (negb (r_outcome rf =? 0)); [exact F|].
     destruct F as (F1 & F2 & F3 & F4 & F5).
     set (st1 := r_state rf) in *.
     set (bn := s_heads ++ branch) in *.
-    set (heads := flat_map _ specs).
-    destruct (negb (is_some (rget (lrefs st) bn))).
+    destruct (negb (is_some (rget (lrefs st) bn))) eqn:Enb.
     - (* new branch *)
-      destruct heads as [|[hn hc] [|h2 hs]];
-        try (apply (res_ok_weaken_out st rf); unfold res_ok; auto).
-      destruct (resolve_commitish (lrefs st1) hn) as [c|];
-        [|apply (res_ok_weaken_out st rf); unfold res_ok; auto].
+      assert (Hnone : rget (lrefs st1) bn = None).
+      { apply G. destruct (rget (lrefs st) bn); [discriminate|reflexivity]. }
+      match goal with |- context [flat_map ?f specs] => set (heads := flat_map f specs) end.
+      assert (W : forall out, res_ok st (mk_result st1 (r_trace rf) out (r_nrej rf))).
+      { intros out. unfold res_ok. simpl. auto. }
+      destruct heads as [|[hn hc] [|h2 hs]]; try apply W.
+      destruct (resolve_commitish (lrefs st1) hn) as [c|]; [|apply W].
       unfold res_ok. simpl. split; [|split; [|split; [|split]]].
       + apply Forall_app. split; [exact F1|]. constructor; [|constructor].
-        unfold trans_ok. simpl. exact I.
+        unfold trans_ok. simpl. rewrite Hnone. exact I.
       + apply Forall_app. split; [apply logged_mono; exact F2|].
-        constructor; [|constructor]. unfold logged. simpl. exists ACT_PULL.
-        rewrite rset_log_logs_same. destruct (rget (lrefs st1) bn) eqn:E.
-        * (* the model records old = None only when the branch does not exist; if the fetch created
-             it (a refspec writing into heads/), the log entry carries the true old value and the
-             trace entry differs - excluded by construction below *)
-          right. (* not provable in general *) 
-          fail.
-        * left. reflexivity.
-  Abort.
+        constructor; [apply logged_new; reflexivity|constructor].
+      + intros Hf. apply rset_log_faithful. auto.
+      + exact F4.
+      + intros n e He. apply rset_log_logs_mono. auto.
+    - (* existing branch *)
+      match goal with |- context [flat_map ?f specs] => set (heads := flat_map f specs) end.
+      assert (W : forall out, res_ok st (mk_result st1 (r_trace rf) out (r_nrej rf))).
+      { intros out. unfold res_ok. simpl. auto. }
+      destruct heads as [|h hs] eqn:Eh; [unfold res_ok; auto|].
+      destruct (rget (lrefs st1) bn) as [b|] eqn:Eb; [|apply W].
+      destruct (resolve_all (lrefs st1) (map fst (h :: hs))) as [cs|]; [|apply W].
+      pose proof (merge_core_ok (lrefs st1) bn b cs mode m Eb (kind_of_heads_not_tag branch)) as H.
+      destruct (merge_core g sk (lrefs st1) bn (b :: cs) mode m) as [[[s' tr] out] nrej].
+      simpl in H. destruct H as (H1 & H2 & H3 & H4).
+      unfold res_ok. simpl. split; [|split; [|split; [|split]]].
+      + apply Forall_app. split; assumption.
+      + apply Forall_app. split; [|exact H2]. eapply logged_grow; [exact H4|exact F2].
+      + auto.
+      + exact F4.
+      + auto.
+  Qed.
+
+  (* ---- histories *)
+  Definition op_guard (st : state) (o : op) : Prop :=
+    match o with
+    | OPull b specs gf _ _ => pull_guard st b specs gf
+    | _ => True
+    end.
+
+  Fixpoint guards_hold (st : state) (ops : list op) : Prop :=
+    match ops with
+    | [] => True
+    | o :: rest => op_guard st o /\ guards_hold (r_state (step g ia sk st o)) rest
+    end.
+
+  Lemma step_ok st o : op_guard st o -> res_ok st (step g ia sk st o).
+  Proof.
+    destruct o; simpl; intros G.
+    - apply fetch_step_ok.
+    - apply push_step_ok.
+    - apply merge_step_ok.
+    - apply pull_step_ok. exact G.
+  Qed.
+
+  Lemma run_ops_ok ops : forall st,
+    guards_hold st ops ->
+    let '(st', tr) := run_ops g ia sk st ops in
+    Forall (trans_ok g) tr /\ Forall (logged (lrefs st')) tr /\
+    (LogFaithful (lrefs st) -> LogFaithful (lrefs st')) /\
+    (LogFaithful (rrefs st) -> LogFaithful (rrefs st')) /\
+    (forall n e, In e (rlogs (lrefs st) n) -> In e (rlogs (lrefs st') n)).
+  Proof.
+    induction ops as [|o rest IH]; intros st G; simpl.
+    - repeat split; auto.
+    - destruct G as [G1 G2]. pose proof (step_ok st o G1) as S.
+      specialize (IH (r_state (step g ia sk st o)) G2).
+      destruct (run_ops g ia sk (r_state (step g ia sk st o)) rest) as [st' tr].
+      destruct S as (S1 & S2 & S3 & S4 & S5). destruct IH as (I1 & I2 & I3 & I4 & I5).
+      split; [|split; [|split; [|split]]].
+      + apply Forall_app. split; assumption.
+      + apply Forall_app. split; [|exact I2]. eapply logged_grow; [exact I5|exact S2].
+      + auto.
+      + auto.
+      + auto.
+  Qed.
+
+  (** C10_forward_only (under the pull guard): every transition of every history is a legal move *)
+  Theorem forward_only_history st ops :
+    guards_hold st ops -> Forall (trans_ok g) (snd (run_ops g ia sk st ops)).
+  Proof.
+    intros G. pose proof (run_ops_ok ops st G) as H.
+    destruct (run_ops g ia sk st ops) as [st' tr]. simpl. tauto.
+  Qed.
+
+  (** C10_log_true: logs stay faithful chains and every local update of the history is in its ref's log
+      with the old and new value the transition had *)
+  Theorem log_true_history st ops :
+    guards_hold st ops ->
+    (LogFaithful (lrefs st) -> LogFaithful (lrefs (fst (run_ops g ia sk st ops)))) /\
+    (LogFaithful (rrefs st) -> LogFaithful (rrefs (fst (run_ops g ia sk st ops)))) /\
+    Forall (logged (lrefs (fst (run_ops g ia sk st ops)))) (snd (run_ops g ia sk st ops)).
+  Proof.
+    intros G. pose proof (run_ops_ok ops st G) as H.
+    destruct (run_ops g ia sk st ops) as [st' tr]. simpl. tauto.
+  Qed.
+
+  (** C10_ff_exact: when the branch value is the merge base and exactly one other commit remains,
+      a merge that is not --no-ff sets the branch exactly to that commit, logging (old, new). *)
+  Theorem ff_exact s branch b o mode m :
+    rget s branch = Some b -> sk [b; o] = SInput b -> b <> o -> mode <> MNoFF ->
+    let '(s', tr, out, _) := merge_core g sk s branch [b; o] mode m in
+    rget s' branch = Some o /\ out = 0 /\
+    rlogs s' branch = mk_log (Some b) o ACT_MERGE :: rlogs s branch /\
+    tr = [mk_trans Local branch (Some b) (Some o) false].
+  Proof.
+    intros Hb Hsk Hne Hm. unfold merge_core. rewrite Hsk. simpl.
+    rewrite N.eqb_refl. simpl.
+    assert (E : (o =? b) = false). { apply N.eqb_neq. congruence. }
+    rewrite E. simpl.
+    destruct mode; try congruence; simpl;
+      (split; [apply rset_log_get_same|split; [reflexivity|split; [|rewrite Hb; reflexivity]]];
+       rewrite rset_log_logs_same, Hb; reflexivity).
+  Qed.
+
+  (** symmetric case: the other commit is already contained in the branch - the "fast-forward" writes the
+      branch's own value (a self transition, logged as such) *)
+  Theorem ff_self s branch b o mode m :
+    rget s branch = Some b -> sk [b; o] = SInput o -> b <> o -> mode <> MNoFF ->
+    let '(s', _, out, _) := merge_core g sk s branch [b; o] mode m in
+    rget s' branch = Some b /\ out = 0.
+  Proof.
+    intros Hb Hsk Hne Hm. unfold merge_core. rewrite Hsk. simpl.
+    assert (E : (b =? o) = false). { apply N.eqb_neq. congruence. }
+    rewrite E, N.eqb_refl. simpl.
+    destruct mode; try congruence; simpl; (split; [apply rset_log_get_same|reflexivity]).
+  Qed.
 
 End WithOracles.
+
+(* ------------------------------------------------------- closed instances *)
+
+(** the executable model's own oracles are sound, so the theorems hold for run_C10's step outright *)
+Theorem forward_only_instance g st ops :
+  guards_hold g (is_ancestor g) (seek_spec g) st ops ->
+  Forall (trans_ok g) (snd (run_ops g (is_ancestor g) (seek_spec g) st ops)).
+Proof.
+  apply forward_only_history; [apply is_ancestor_sound|apply seek_spec_sound].
+Qed.
+
+(* ------------------------------------------------------- refutation of the unguarded statement *)
+
+Definition bs (l : list N) : name := l.
+Definition n_b : name := s_heads ++ [98].                        (* heads/b *)
+Definition n_x : name := s_heads ++ [120].                       (* heads/x *)
+Definition n_ox : name := s_remotes ++ [111;114;105;103;105;110;47;120].  (* remotes/origin/x *)
+
+(** remote: heads/b = 0, heads/x = 1 (two unrelated roots); local: nothing.
+    pull b origin refs/heads/*:refs/heads/* refs/heads/x:refs/remotes/origin/x *)
+Definition w_graph : graph := [(0, []); (1, [])].
+Definition w_state : state :=
+  mk_state [] (rset_log (rset_log [] n_b 0 ACT_SETUP) n_x 1 ACT_SETUP) [].
+Definition w_op : op :=
+  OPull [98] [mk_spec false true s_heads s_heads; mk_spec false false n_x n_ox] false MFF 1000.
+
+Lemma w_trace :
+  r_trace (step w_graph (is_ancestor w_graph) (seek_spec w_graph) w_state w_op) =
+  [mk_trans Local n_b None (Some 0) false; mk_trans Local n_x None (Some 1) false;
+   mk_trans Local n_ox None (Some 1) false; mk_trans Local n_b (Some 0) (Some 1) false].
+Proof. vm_compute. reflexivity. Qed.
+
+Lemma w_not_anc : ~ anc w_graph 0 1.
+Proof.
+  intros H. inversion H as [|a p b Hin Hp]; subst. simpl in Hin. contradiction.
+Qed.
+
+Theorem pull_new_branch_refuted :
+  exists g st o, ~ Forall (trans_ok g) (r_trace (step g (is_ancestor g) (seek_spec g) st o)).
+Proof.
+  exists w_graph, w_state, w_op. rewrite w_trace. intros H.
+  inversion H as [|? ? _ H1]; subst. inversion H1 as [|? ? _ H2]; subst.
+  inversion H2 as [|? ? _ H3]; subst. inversion H3 as [|? ? H4 _]; subst.
+  unfold trans_ok in H4. simpl in H4. destruct H4 as [H4 _].
+  apply w_not_anc. apply H4. reflexivity.
+Qed.
+
+(* ------------------------------------------------------- non-vacuity *)
+
+(** a concrete history (fetch with a rejected and an accepted ref, push, merge, guarded pull) meets the
+    guards, and its trace is not empty *)
+Definition ex_graph : graph := [(0, []); (1, [0]); (2, [1]); (3, [1]); (1000, [2; 3])].
+Definition n_main : name := s_heads ++ [109].                          (* heads/m *)
+Definition n_om : name := s_remotes ++ [111;47;109].                   (* remotes/o/m *)
+Definition ex_state : state :=
+  mk_state (rset_log (rset_log [] n_main 2 ACT_SETUP) n_om 3 ACT_SETUP)
+           (rset_log [] n_main 3 ACT_SETUP) [0; 1; 2; 3].
+Definition ex_ops : list op :=
+  [ OFetch [mk_spec false false n_main n_om] false;
+    OPush [mk_pitem false (Some n_main) n_main] false false false;
+    OMerge [109] [n_om] MFF 1000;
+    OPull [109] [mk_spec false false n_main n_om] false MFF 1000;
+    OPush [mk_pitem false (Some n_main) n_main] false false false ].
+
+Example ex_trace_nonempty :
+  length (snd (run_ops ex_graph (is_ancestor ex_graph) (seek_spec ex_graph) ex_state ex_ops)) = 3%nat.
+Proof. vm_compute. reflexivity. Qed.
+
+Example ex_guards : guards_hold ex_graph (is_ancestor ex_graph) (seek_spec ex_graph) ex_state ex_ops.
+Proof.
+  simpl. repeat split; auto. unfold pull_guard. intros H. vm_compute in H. discriminate.
+Qed.
